@@ -320,4 +320,5 @@ def theorem_reach(c, cases, vflags='0000', want=('reach', 'runguard', 'eqguard')
         o, _ = run_lines_sharded(vm, ['eqguard %s %d %d %s (%s)' % (vflags, late[i], FUEL, sx[i], evs[i]) for i in range(len(cases))], timeout=1500)
         for i, r in enumerate(o):
             out[i]['eq'] = tuple(ch == '1' for ch in r[:2]) if len(r) >= 2 and set(r[:2]) <= set('01') else (False, False)
+            out[i]['eqh'] = tuple(ch == '1' for ch in r[2:4]) if len(r) >= 4 and set(r[:4]) <= set('01') else (False, False)
     return out
